@@ -353,16 +353,18 @@ func (w *worker) runSolo(i int, in *bytesgen.Input, budget int64, exitOnHang boo
 		now := cpuMillis()
 		if used := now - start; used > budget {
 			w.counts["cpu_budget_exhausted"]++
-			st := ""
+			st, full := "", ""
 			for _, g := range allGoroutines() {
 				if strings.Contains(g.Stack, scriggoMark) {
 					st += core.Truncate(g.Stack, 1200) + "\n\n"
+					full += g.Stack + "\n\n"
 				}
 			}
+			site := hangSite(full) // from the whole stacks: the innermost frames may be deep in math/big
 			if in.Size() <= budgetSize {
-				w.flag(i, core.Violation, "cpu", hangSite(st), fmt.Sprintf("build still running after %d CPU-ms (budget %d ms) for an input of %d bytes\ninput: %s\n%s", used, budget, in.Size(), in.Describe(600), core.Truncate(st, 3000)))
+				w.flag(i, core.Violation, "cpu", site, fmt.Sprintf("build still running after %d CPU-ms (budget %d ms) for an input of %d bytes\ninput: %s\n%s", used, budget, in.Size(), in.Describe(600), core.Truncate(st, 3000)))
 			} else {
-				w.flag(i, core.Inconclusive, "cpu", hangSite(st), fmt.Sprintf("build still running after %d CPU-ms for an input of %d bytes (> 8 KiB: outside the budget claim)", used, in.Size()))
+				w.flag(i, core.Inconclusive, "cpu", site, fmt.Sprintf("build still running after %d CPU-ms for an input of %d bytes (> 8 KiB: outside the budget claim)", used, in.Size()))
 			}
 			if exitOnHang {
 				giveUp(w.flagged[len(w.flagged)-1])
